@@ -138,7 +138,10 @@ def check_valid(tc, rec):
         # an int array with float / absent bounds is outside the docstring's precondition (bounds of the data's type)
     else:
         import pandas as pd
+        frac = any(v is not None and float(v) != int(v) for v in case["x"])
         for unit in ("s", "ms", "us", "ns"):
+            if unit == "s" and frac:
+                continue  # whole-second resolution cannot carry the same instants
             variants.append((f"dt64{unit}", a.astype(f"datetime64[{unit}]"), {}))
         variants.append(("dtindex", pd.DatetimeIndex(a.astype("datetime64[ns]")), {}))
         variants.append(("series", pd.Series(a.astype("datetime64[ns]")), {}))
